@@ -417,7 +417,10 @@ func objLiteral(t *Tape, minKeys, maxKeys int) string {
 // (or in the corresponding limit error).
 func genHeavyItem(t *Tape) Item {
 	it := Item{Inputs: []ProgInput{{Name: "in.json", Data: QBytes("[1, 2, 3]")}}}
-	switch t.Draw(6) {
+	switch t.Draw(8) {
+	case 6, 7:
+		// hundreds of distinct patterns compiled in one run
+		it.Prog = fmt.Sprintf("BEGIN { for (i = 0; i < %d; i++) { if (\"p7\" ~ (\"^p\" + i + \"$\")) { c++ }\n if (\"alpha\" !~ (\"a\" + i)) { d++ } }\n print c, d }", 150+t.Draw(1200))
 	case 0:
 		// about a million array slots filled by assignments past the end
 		it.Prog = fmt.Sprintf("BEGIN { for (i = 0; i < 8; i++) { a = []\n a[%d + i] = i }\n print a.length() }", 100000+t.Draw(60000))
@@ -466,7 +469,17 @@ func genItem(t *Tape) Item {
 		it.Inputs = append(it.Inputs, ProgInput{Name: "in2.json", Data: QBytes(doc())})
 	}
 	k1, k2 := histKeys[t.Draw(len(histKeys))], histKeys[t.Draw(len(histKeys))]
-	switch t.Weighted(5, 5, 3, 3, 3, 2, 2, 2, 2, 2, 2, 1, 1, 4, 2, 3, 2, 4, 3, 3, 5, 3, 4, 3) {
+	switch t.Weighted(5, 5, 3, 3, 3, 2, 2, 2, 2, 2, 2, 1, 1, 4, 2, 3, 2, 4, 3, 3, 5, 3, 4, 3, 3) {
+	case 24:
+		// root selectors that print, over several documents, with rules that print
+		// too: the order of the lines is part of the output however the bytes arrive
+		it.Inputs = []ProgInput{{Name: "in.json", Data: QBytes(doc() + "\n" + doc() + " " + doc())}}
+		it.Selectors = [][]string{
+			{"[printf(\"sel %s\\n\", $ is array), $][1]"},
+			{"match ($) { sv => { print \"selecting\" } }", "$"},
+			{"$", "[printf(\"second selector\\n\"), $][1]"},
+		}[t.Draw(3)]
+		it.Prog = "BEGINFILE { print \"bf\" }\n{ print \"item\", $ is object }\nENDFILE { print \"ef\" }"
 	case 13:
 		// regular expressions: literal and string forms, patterns that share
 		// prefixes and lengths (a process-level cache keyed too coarsely shows here)
@@ -614,7 +627,7 @@ func registerC10() {
 			}
 			m := 10 + t.Draw(51)
 			heavy := -1
-			if t.Chance(1, 10) {
+			if t.Chance(1, 7) {
 				// a resource-heavy item that dominates the history: whatever a run
 				// consumes (cells, frames, steps, output) is given back when it ends
 				heavy = t.Draw(n)
